@@ -12,7 +12,7 @@ import json, os, shutil, subprocess, sys, tempfile, time, glob, concurrent.futur
 
 HERE = os.path.dirname(os.path.abspath(__file__))
 REPO = os.environ.get("VERIF_REPO", "/repo")
-BIN = os.path.join(HERE, "bin", "samlverif")
+BIN = os.environ.get("VERIF_BIN") or os.path.join(HERE, "bin", "samlverif")
 ENV = dict(os.environ, GOFLAGS="-mod=mod", GOPROXY="off", GOSUMDB="off", GOTOOLCHAIN="local", GOWORK="off")
 
 
@@ -32,7 +32,24 @@ def variants(prop):
                 must.append(("seeded/" + os.path.basename(d), patch, m.get("expect_rule")))
     for p in sorted(glob.glob(os.path.join(HERE, "silent", "*.patch"))):
         silent.append((os.path.basename(p)[:-6], p, None))
+    # large behaviour-preserving rewrites (DESIGN.md 9.6); the pairs listed in refactors/KNOWN_NOISY.txt are
+    # documented limitations of named rules and are reported as such, not as noise
+    for p in sorted(glob.glob(os.path.join(HERE, "refactors", "*.patch"))):
+        silent.append(("refactors/" + os.path.basename(p)[:-6], p, None))
     return must, silent
+
+
+def known_noisy():
+    out = {}
+    try:
+        for l in open(os.path.join(HERE, "refactors", "KNOWN_NOISY.txt")):
+            if l.startswith("#") or not l.strip():
+                continue
+            f = l.split()
+            out["refactors/" + f[0][:-6]] = {w for w in f[1:] if w[:1] == "C" and "." in w and w[1:3].isdigit()}
+    except OSError:
+        pass
+    return out
 
 
 def run_variant(prop, name, patch, baseline_rc):
@@ -77,9 +94,19 @@ def main():
     skipped = sum(1 for x in results["must_fire"] if x["result"] == "skipped")
     missed = [x["variant"] for x in results["must_fire"] if x["result"] in ("silent", "error")]
     # a silent variant must not change the verdict of the tree: with a clean tree (rc 0) it must stay silent
-    noisy = [x["variant"] for x in results["must_stay_silent"] if x["result"] == "fired" and rc == 0]
+    kn = known_noisy()
+    noisy, limited = [], []
+    for x in results["must_stay_silent"]:
+        if x["result"] != "fired" or rc != 0:
+            continue
+        rules = {w for w in x["detail"][6:].split(" | ")[0].split(",") if w}
+        if rules and rules <= kn.get(x["variant"], set()):
+            x["result"] = "known-limitation"
+            limited.append(x["variant"])
+        else:
+            noisy.append(x["variant"])
     print(f"QA {prop}: must-fire variants applied={len(must)-skipped} fired={killed} skipped={skipped} missed={missed}; "
-          f"must-stay-silent variants={len(silent)} noisy={noisy}")
+          f"must-stay-silent variants={len(silent)} noisy={noisy} documented-limitations={limited}")
     for x in results["must_fire"]:
         if x["result"] in ("silent", "error"):
             print(f"QA-MISSED property={prop} variant={x['variant']} ({x['result']}) {x['detail']}")
